@@ -298,11 +298,6 @@ func runCase(c Case) []ev.Violation {
 		return out
 	}
 	vs = judge(L)
-	if len(vs) > 0 && hadPrev && len(judge(L|P)) == 0 {
-		// everything observed is exactly what a catalogue that still attributes M to the endpoints
-		// that dropped it would produce: one root cause (C10's stale attribution), one signature
-		return []ev.Violation{{Sig: "stale-listing-after-replace-with-fewer", Detail: "routing acted on a listing the endpoint has replaced: " + desc + " [first symptom: " + vs[0].Sig + "]"}}
-	}
 	if len(vs) > 0 && c.BigBody {
 		// one root cause: the body inspector gives up above 1 MiB, so no model is attached to the
 		// routing profile and model routing is skipped altogether
